@@ -1,2 +1,401 @@
-(* Proofs/MashProofsB.v *)
+(* Proofs/MashProofsB.v — C17, part 2: strand invariance (on top of C12's
+   canon_strand_symmetric), symmetry of minhash.intersect, and its value on two
+   full sketches of equal size. *)
+From Coq Require Import String Sorted Permutation.
 From Bio Require Import Base.
+From Bio.Model Require Import Seq Mash.
+From Bio.Spec Require Import SeqSpec MashSpec.
+From Bio.Proofs Require Import SeqProofs MashProofs.
+
+(* ---- reverse complement --------------------------------------------------------- *)
+Definition upper_compl_check : bool :=
+  forallb (fun b => if is_dna10 b
+                    then (upper_byte (complb b) =? complb (upper_byte b)) && is_dna10 (upper_byte b)
+                    else true) bytes256.
+
+Lemma upper_compl_check_ok : upper_compl_check = true.
+Proof. vm_compute. reflexivity. Qed.
+
+Lemma is_dna10_range b : is_dna10 b = true -> b < 256.
+Proof.
+  unfold is_dna10. destruct (compl b) as [c|] eqn:E; [|discriminate]. intros _. eapply compl_range. exact E.
+Qed.
+
+Lemma upper_complb b : is_dna10 b = true ->
+  upper_byte (complb b) = complb (upper_byte b) /\ is_dna10 (upper_byte b) = true.
+Proof.
+  intros H. pose proof upper_compl_check_ok as C. unfold upper_compl_check in C.
+  rewrite forallb_forall in C. specialize (C b (in_bytes256 b (is_dna10_range b H))).
+  rewrite H in C. apply andb_true_iff in C. destruct C as [C1 C2]. apply N.eqb_eq in C1. auto.
+Qed.
+
+Lemma upper_dna10 s : dna10 s -> dna10 (map upper_byte s).
+Proof.
+  unfold dna10. intros H. apply Forall_map. eapply Forall_impl; [|exact H].
+  intros b Hb. apply upper_complb. exact Hb.
+Qed.
+
+Lemma upper_rcseq s : dna10 s -> map upper_byte (rcseq s) = rcseq (map upper_byte s).
+Proof.
+  intros H. unfold rcseq. rewrite map_rev. f_equal. rewrite !map_map.
+  apply map_ext_in. intros b Hb. unfold dna10 in H. rewrite Forall_forall in H.
+  apply upper_complb. apply H. exact Hb.
+Qed.
+
+Lemma canon_neg s k : (k < 0)%Z -> canon s k = Panic.
+Proof.
+  intros H. unfold canon. destruct (rc [] s); try reflexivity.
+  destruct (Z.ltb_spec k 0); [reflexivity|lia].
+Qed.
+
+(* the k-mers of the upper-cased reverse complement: the same, in opposite order *)
+Lemma canon_upper_rc s r k : rc [] s = Ok r ->
+  kequiv (canon (map upper_byte s) k) (canon (map upper_byte r) k).
+Proof.
+  intros E. apply rc_ok_inv in E. destruct E as [H ->]. cbn [app].
+  destruct (Z.ltb_spec k 0) as [L|L].
+  - rewrite !canon_neg by exact L. exact I.
+  - rewrite upper_rcseq by exact H.
+    destruct (canon_strand_symmetric_total (map upper_byte s) k (upper_dna10 s H) L) as [items [E1 E2]].
+    rewrite E1, E2. cbn. apply Permutation_rev.
+Qed.
+
+Lemma kmers_cons_equiv k s r l l' :
+  kequiv (canon (map upper_byte s) k) (canon (map upper_byte r) k) ->
+  kequiv (kmers k l) (kmers k l') ->
+  kequiv (kmers k (s :: l)) (kmers k (r :: l')).
+Proof.
+  intros H1 H2. rewrite !kmers_cons.
+  destruct (canon (map upper_byte s) k) as [a| |], (canon (map upper_byte r) k) as [b| |]; cbn in H1; try tauto;
+    try exact I.
+  destruct (kmers k l) as [c| |], (kmers k l') as [d| |]; cbn in H2; try tauto; try exact I.
+  cbn. apply Permutation_app; assumption.
+Qed.
+
+(* any number of the sequences replaced by their reverse complements *)
+Definition strand_variant (s r : bytes) : Prop := r = s \/ rc [] s = Ok r.
+
+Lemma kmers_strand k seqs seqs' : Forall2 strand_variant seqs seqs' ->
+  kequiv (kmers k seqs) (kmers k seqs').
+Proof.
+  induction 1 as [|s r l l' V F IH]; [apply kequiv_refl|].
+  apply kmers_cons_equiv; [|exact IH].
+  destruct V as [->|E]; [apply kequiv_refl|apply canon_upper_rc; exact E].
+Qed.
+
+Section Hash.
+Variable h : bytes -> N.
+Let hs : bytes -> option N := fun b => Some (h b).
+
+Lemma sketch_rc n k seqs seqs' : Forall2 strand_variant seqs seqs' ->
+  sequences hs n k seqs = sequences hs n k seqs'.
+Proof. intros H. apply sequences_kequiv. apply kmers_strand. exact H. Qed.
+
+Lemma sketch_rc_one n k l1 s r l2 : rc [] s = Ok r ->
+  sequences hs n k (l1 ++ s :: l2) = sequences hs n k (l1 ++ r :: l2).
+Proof.
+  intros E. apply sketch_rc. apply Forall2_app.
+  - induction l1; constructor; [left; reflexivity|assumption].
+  - constructor; [right; exact E|]. induction l2; constructor; [left; reflexivity|assumption].
+Qed.
+
+End Hash.
+
+(* ---- intersect is symmetric --------------------------------------------------------- *)
+Definition swap_state (st : list N * list N * Z * Z) : list N * list N * Z * Z :=
+  match st with (ra, rb, m, i) => (rb, ra, m, i) end.
+
+Definition omap {A B} (f : A -> B) (o : outcome A) : outcome B :=
+  match o with Ok a => Ok (f a) | Err => Err | Panic => Panic end.
+
+Lemma isect_loop_swap fuel k ra rb m inter :
+  isect_loop fuel k rb ra m inter = omap swap_state (isect_loop fuel k ra rb m inter).
+Proof.
+  revert ra rb m inter. induction fuel as [|f IH]; intros ra rb m inter.
+  - destruct ra as [|x ra], rb as [|y rb]; cbn [isect_loop]; try reflexivity.
+    destruct (m <? k)%Z; reflexivity.
+  - destruct ra as [|x ra], rb as [|y rb]; cbn [isect_loop]; try reflexivity.
+    destruct (m <? k)%Z; [|reflexivity].
+    destruct (N.ltb_spec y x) as [L1|L1], (N.ltb_spec x y) as [L2|L2]; try lia; apply IH.
+Qed.
+
+Lemma intersect_sym a b k : intersect a b k = intersect b a k.
+Proof.
+  unfold intersect. destruct (sorted_desc a), (sorted_desc b); cbn [negb]; try reflexivity.
+  rewrite (isect_loop_swap (length b + length a) k (rev a) (rev b)).
+  rewrite (Nat.add_comm (length b) (length a)).
+  destruct (isect_loop (length a + length b) k (rev a) (rev b) 0 0) as [[[[ra rb] m] i]| |]; cbn; try reflexivity.
+  f_equal. f_equal. f_equal. lia.
+Qed.
+
+(* ---- the loop counts the shared values among the smallest of the union ---------------- *)
+Definition cnt (ra rb l : list N) : nat := length (filter (fun z => memb z ra && memb z rb) l).
+
+Lemma asc_inv x l : asc (x :: l) -> asc l /\ forall z, In z l -> x < z.
+Proof.
+  intros S. apply StronglySorted_inv in S. destruct S as [S F]. rewrite Forall_forall in F. auto.
+Qed.
+
+Lemma sort_dedup_head y l l' :
+  (forall z, In z l <-> z = y \/ In z l') -> (forall z, In z l' -> y < z) ->
+  sort_dedup l = y :: sort_dedup l'.
+Proof.
+  intros H1 H2. apply asc_unique.
+  - apply sort_dedup_asc.
+  - constructor; [apply sort_dedup_asc|]. apply Forall_forall. intros z Hz. apply H2. apply sort_dedup_in. exact Hz.
+  - intros z. rewrite sort_dedup_in, H1. cbn [In]. rewrite sort_dedup_in. intuition congruence.
+Qed.
+
+Lemma memb_cons z x l : memb z (x :: l) = (z =? x) || memb z l.
+Proof. reflexivity. Qed.
+
+Lemma memb_false z l : ~ In z l -> memb z l = false.
+Proof. intros H. destruct (memb z l) eqn:E; [|reflexivity]. apply memb_in in E. contradiction. Qed.
+
+Lemma cnt_ext ra rb ra' rb' l :
+  (forall z, In z l -> memb z ra && memb z rb = memb z ra' && memb z rb') -> cnt ra rb l = cnt ra' rb' l.
+Proof. intros H. unfold cnt. f_equal. apply filter_ext_in. exact H. Qed.
+
+Lemma firstn_S_cons {A} t (x : A) l : firstn (S t) (x :: l) = x :: firstn t l.
+Proof. reflexivity. Qed.
+
+Record loop_post (k : Z) (ra rb : list N) (m inter : Z) (ra' rb' : list N) (m' inter' : Z) : Prop := {
+  lp_m : (m <= m' <= k)%Z;
+  lp_cnt : (inter' = inter + Z.of_nat (cnt ra rb (firstn (Z.to_nat (m' - m)) (sort_dedup (ra ++ rb)))))%Z;
+  lp_la : (Z.of_nat (length ra) <= Z.of_nat (length ra') + (m' - m))%Z;
+  lp_lb : (Z.of_nat (length rb) <= Z.of_nat (length rb') + (m' - m))%Z;
+  lp_la' : (length ra' <= length ra)%nat;
+  lp_lb' : (length rb' <= length rb)%nat;
+  lp_stop : m' = k \/ ra' = [] \/ rb' = []
+}.
+
+Lemma cnt_nil ra rb : cnt ra rb [] = 0%nat.
+Proof. reflexivity. Qed.
+
+Lemma isect_loop_spec fuel k : forall ra rb m inter,
+  asc ra -> asc rb -> (length ra + length rb <= fuel)%nat -> (m <= k)%Z ->
+  exists ra' rb' m' inter',
+    isect_loop fuel k ra rb m inter = Ok (ra', rb', m', inter') /\
+    loop_post k ra rb m inter ra' rb' m' inter'.
+Proof.
+  induction fuel as [|f IH]; intros ra rb m inter Sa Sb Hf Hm.
+  - (* no fuel: one of the lists is empty *)
+    assert (E : ra = [] \/ rb = []).
+    { destruct ra; [left; reflexivity|]. destruct rb; [right; reflexivity|]. cbn in Hf. lia. }
+    exists ra, rb, m, inter. split.
+    + destruct E as [-> | ->]; [reflexivity|]. destruct ra; reflexivity.
+    + constructor; try lia.
+      * rewrite Z.sub_diag. cbn [Z.to_nat firstn]. rewrite cnt_nil. lia.
+      * right. exact E.
+  - destruct ra as [|x ra1].
+    { exists [], rb, m, inter. split; [reflexivity|].
+      constructor; try lia. rewrite Z.sub_diag. cbn [Z.to_nat firstn]. rewrite cnt_nil. lia. auto. }
+    destruct rb as [|y rb1].
+    { exists (x :: ra1), [], m, inter. split; [reflexivity|].
+      constructor; try lia. rewrite Z.sub_diag. cbn [Z.to_nat firstn]. rewrite cnt_nil. lia. auto. }
+    cbn [isect_loop]. destruct (Z.ltb_spec m k) as [Lk|Lk].
+    2:{ exists (x :: ra1), (y :: rb1), m, inter. split; [reflexivity|].
+        constructor; try lia. rewrite Z.sub_diag. cbn [Z.to_nat firstn]. rewrite cnt_nil. lia. }
+    destruct (asc_inv _ _ Sa) as [Sa1 Fa]. destruct (asc_inv _ _ Sb) as [Sb1 Fb].
+    cbn [length] in Hf.
+    destruct (N.ltb_spec y x) as [L1|L1]; [|destruct (N.ltb_spec x y) as [L2|L2]].
+    + (* b's value is smaller: it is in b only *)
+      destruct (IH (x :: ra1) rb1 (m + 1)%Z inter Sa Sb1 ltac:(cbn [length]; lia) ltac:(lia))
+        as [ra' [rb' [m' [inter' [E P]]]]].
+      exists ra', rb', m', inter'. split; [exact E|]. destruct P.
+      assert (U : sort_dedup ((x :: ra1) ++ y :: rb1) = y :: sort_dedup ((x :: ra1) ++ rb1)).
+      { apply sort_dedup_head.
+        - intros z. rewrite !in_app_iff. cbn [In]. intuition congruence.
+        - intros z Hz. apply in_app_iff in Hz. destruct Hz as [[Hz|Hz]|Hz].
+          + subst z. exact L1.
+          + specialize (Fa z Hz). lia.
+          + apply Fb. exact Hz. }
+      constructor; try (cbn [length] in *; lia); [|assumption].
+      rewrite U. replace (Z.to_nat (m' - m)) with (S (Z.to_nat (m' - (m + 1)))) by lia.
+      rewrite firstn_S_cons. unfold cnt at 1. cbn [filter].
+      assert (Ny : memb y (x :: ra1) = false).
+      { apply memb_false. intros [Hy|Hy]; [lia|]. specialize (Fa y Hy). lia. }
+      rewrite Ny. cbn [andb]. fold (cnt (x :: ra1) (y :: rb1) (firstn (Z.to_nat (m' - (m + 1))) (sort_dedup ((x :: ra1) ++ rb1)))).
+      rewrite (cnt_ext (x :: ra1) (y :: rb1) (x :: ra1) rb1).
+      * exact lp_cnt0.
+      * intros z _. rewrite (memb_cons z y rb1). destruct (N.eqb_spec z y) as [->|]; [|reflexivity].
+        rewrite Ny. reflexivity.
+    + (* a's value is smaller: it is in a only *)
+      destruct (IH ra1 (y :: rb1) (m + 1)%Z inter Sa1 Sb ltac:(cbn [length]; lia) ltac:(lia))
+        as [ra' [rb' [m' [inter' [E P]]]]].
+      exists ra', rb', m', inter'. split; [exact E|]. destruct P.
+      assert (U : sort_dedup ((x :: ra1) ++ y :: rb1) = x :: sort_dedup (ra1 ++ y :: rb1)).
+      { apply sort_dedup_head.
+        - intros z. cbn [app In]. rewrite !in_app_iff. cbn [In]. intuition congruence.
+        - intros z Hz. apply in_app_iff in Hz. destruct Hz as [Hz|[Hz|Hz]].
+          + apply Fa. exact Hz.
+          + subst z. exact L2.
+          + specialize (Fb z Hz). lia. }
+      constructor; try (cbn [length] in *; lia); [|assumption].
+      rewrite U. replace (Z.to_nat (m' - m)) with (S (Z.to_nat (m' - (m + 1)))) by lia.
+      rewrite firstn_S_cons. unfold cnt at 1. cbn [filter].
+      assert (Nx : memb x (y :: rb1) = false).
+      { apply memb_false. intros [Hx|Hx]; [lia|]. specialize (Fb x Hx). lia. }
+      rewrite Nx, andb_false_r. fold (cnt (x :: ra1) (y :: rb1) (firstn (Z.to_nat (m' - (m + 1))) (sort_dedup (ra1 ++ y :: rb1)))).
+      rewrite (cnt_ext (x :: ra1) (y :: rb1) ra1 (y :: rb1)).
+      * exact lp_cnt0.
+      * intros z _. rewrite (memb_cons z x ra1). destruct (N.eqb_spec z x) as [->|]; [|reflexivity].
+        rewrite Nx, !andb_false_r. reflexivity.
+    + (* equal: shared *)
+      assert (x = y) by lia. subst y.
+      destruct (IH ra1 rb1 (m + 1)%Z (inter + 1)%Z Sa1 Sb1 ltac:(lia) ltac:(lia))
+        as [ra' [rb' [m' [inter' [E P]]]]].
+      exists ra', rb', m', inter'. split; [exact E|]. destruct P.
+      assert (U : sort_dedup ((x :: ra1) ++ x :: rb1) = x :: sort_dedup (ra1 ++ rb1)).
+      { apply sort_dedup_head.
+        - intros z. cbn [app In]. rewrite !in_app_iff. cbn [In]. intuition congruence.
+        - intros z Hz. apply in_app_iff in Hz. destruct Hz as [Hz|Hz]; [apply Fa|apply Fb]; exact Hz. }
+      constructor; try (cbn [length] in *; lia); [|assumption].
+      rewrite U. replace (Z.to_nat (m' - m)) with (S (Z.to_nat (m' - (m + 1)))) by lia.
+      rewrite firstn_S_cons. unfold cnt at 1. cbn [filter].
+      rewrite !memb_cons, N.eqb_refl. cbn [orb andb length].
+      fold (cnt (x :: ra1) (x :: rb1) (firstn (Z.to_nat (m' - (m + 1))) (sort_dedup (ra1 ++ rb1)))).
+      rewrite (cnt_ext (x :: ra1) (x :: rb1) ra1 rb1).
+      * lia.
+      * intros z Hz. apply in_firstn in Hz. apply (proj1 (sort_dedup_in _ _)) in Hz.
+        assert (x < z). { apply in_app_iff in Hz. destruct Hz as [Hz|Hz]; [apply Fa|apply Fb]; exact Hz. }
+        rewrite !memb_cons. destruct (N.eqb_spec z x); [lia|]. reflexivity.
+Qed.
+
+Lemma sorted_desc_of_desc l : desc l -> sorted_desc l = true.
+Proof.
+  induction l as [|x l IH]; intros S; [reflexivity|].
+  apply StronglySorted_inv in S. destruct S as [S F].
+  cbn [sorted_desc]. destruct l as [|y l]; [reflexivity|].
+  inversion F; subst. destruct (N.ltb_spec x y); [lia|]. cbn [negb andb]. apply IH. exact S.
+Qed.
+
+Lemma memb_rev z l : memb z (rev l) = memb z l.
+Proof.
+  destruct (memb z l) eqn:E.
+  - apply memb_in. apply -> in_rev. apply memb_in. exact E.
+  - apply memb_false. intros H. apply in_rev in H. apply memb_in in H. congruence.
+Qed.
+
+(* two full sketches of the same size n: (shared among the n smallest of the union, n) *)
+Lemma jaccard_full n a b : desc a -> desc b -> length a = n -> length b = n -> (1 <= n)%nat ->
+  intersect a b (Z.of_nat n) = Ok (Z.of_nat (shared_bottom n a b), Z.of_nat n).
+Proof.
+  intros Da Db La Lb Hn. unfold intersect.
+  rewrite (sorted_desc_of_desc a Da), (sorted_desc_of_desc b Db). cbn [negb].
+  destruct (isect_loop_spec (length a + length b) (Z.of_nat n) (rev a) (rev b) 0%Z 0%Z)
+    as [ra' [rb' [m' [inter' [E P]]]]].
+  - apply desc_rev. exact Da.
+  - apply desc_rev. exact Db.
+  - rewrite !rev_length. lia.
+  - lia.
+  - rewrite E. destruct P. rewrite !rev_length in *.
+    assert (M : m' = Z.of_nat n).
+    { destruct lp_stop0 as [H|[H|H]]; [exact H| |]; subst; cbn [length] in *; lia. }
+    f_equal. f_equal.
+    + rewrite lp_cnt0. rewrite M. rewrite Z.add_0_l. f_equal.
+      rewrite Z.sub_0_r, Nat2Z.id. unfold shared_bottom, cnt.
+      rewrite (sort_dedup_content (rev a ++ rev b) (a ++ b)).
+      * f_equal. apply filter_ext. intros z. rewrite !memb_rev. reflexivity.
+      * intros z. rewrite !in_app_iff, <- !in_rev. reflexivity.
+    + lia.
+Qed.
+
+Lemma filter_len_le {A} (f : A -> bool) l : (length (filter f l) <= length l)%nat.
+Proof. induction l as [|x l IH]; [apply le_n|]. cbn [filter]. destruct (f x); cbn [length]; lia. Qed.
+
+Lemma filter_all {A} (f : A -> bool) l : (forall z, In z l -> f z = true) -> filter f l = l.
+Proof.
+  induction l as [|x l IH]; intros H; [reflexivity|]. cbn [filter].
+  rewrite (H x (or_introl eq_refl)). f_equal. apply IH. intros z Hz. apply H. right. exact Hz.
+Qed.
+
+Lemma shared_bottom_le n a b : (shared_bottom n a b <= n)%nat.
+Proof.
+  unfold shared_bottom. etransitivity; [apply filter_len_le|]. apply firstn_le_length.
+Qed.
+
+Lemma shared_bottom_same n a : desc a -> length a = n -> shared_bottom n a a = n.
+Proof.
+  intros D L. unfold shared_bottom.
+  assert (E : sort_dedup (a ++ a) = rev a).
+  { apply asc_unique; [apply sort_dedup_asc|apply desc_rev; exact D|].
+    intros z. rewrite sort_dedup_in, in_app_iff, <- in_rev. tauto. }
+  rewrite E. rewrite firstn_all2 by (rewrite rev_length; lia).
+  rewrite filter_all.
+  - rewrite rev_length. exact L.
+  - intros z Hz. apply in_rev in Hz. apply memb_in in Hz. rewrite Hz. reflexivity.
+Qed.
+
+Lemma desc_sketch_of n l : desc (sketch_of n l).
+Proof. unfold sketch_of. apply asc_rev. apply ss_firstn. apply sort_dedup_asc. Qed.
+
+(* ---- on sketches ----------------------------------------------------------------------- *)
+Section HashB.
+Variable h : bytes -> N.
+Local Notation hs := (fun b : bytes => Some (h b)).
+
+(* the same sequences distributed differently over Sequences + Add calls *)
+Lemma sketch_repartition n k b1 b2 ks : b1 <> [] -> b2 <> [] -> (1 <= n)%Z ->
+  Permutation (concat b1) (concat b2) -> kmers k (concat b1) = Ok ks ->
+  incremental hs n k b1 = incremental hs n k b2.
+Proof.
+  intros N1 N2 Hn P K.
+  pose proof (kmers_reorder h k _ _ P) as Q. rewrite K in Q.
+  destruct (kmers k (concat b2)) as [ks2| |] eqn:K2; cbn in Q; try tauto.
+  rewrite (sketch_incremental h n k b1 ks N1 Hn K).
+  rewrite (sketch_incremental h n k b2 ks2 N2 Hn K2).
+  apply sketch_reorder. exact P.
+Qed.
+
+Lemma sketch_jaccard_full n k sa sb ka kb : (1 <= n)%Z ->
+  kmers k sa = Ok ka -> kmers k sb = Ok kb ->
+  length (sketch_of n (map h ka)) = Z.to_nat n ->
+  length (sketch_of n (map h kb)) = Z.to_nat n ->
+  sketch_jaccard_pair hs n n k sa sb
+  = Ok (Z.of_nat (shared_bottom (Z.to_nat n) (sketch_of n (map h ka)) (sketch_of n (map h kb))), n).
+Proof.
+  intros Hn Ka Kb La Lb. unfold sketch_jaccard_pair.
+  rewrite (sequences_mh_spec h n k sa ka Hn Ka), (sequences_mh_spec h n k sb kb Hn Kb). cbn [obind].
+  unfold jaccard_pair. cbn [mh_vals mh_k].
+  rewrite <- (Z2Nat.id n) at 3 by lia.
+  rewrite (jaccard_full (Z.to_nat n)); try assumption; try apply desc_sketch_of; [|lia].
+  rewrite Z2Nat.id by lia. reflexivity.
+Qed.
+
+(* identical k-mer content, full sketch: everything is shared *)
+Lemma sketch_jaccard_same n k sa sb ka kb : (1 <= n)%Z ->
+  kmers k sa = Ok ka -> kmers k sb = Ok kb -> (forall x, In x ka <-> In x kb) ->
+  length (sketch_of n (map h ka)) = Z.to_nat n ->
+  sketch_jaccard_pair hs n n k sa sb = Ok (n, n).
+Proof.
+  intros Hn Ka Kb C La.
+  assert (E : sketch_of n (map h kb) = sketch_of n (map h ka)).
+  { apply sketch_of_content. intros x. rewrite !in_map_iff.
+    split; intros [y [Ey Iy]]; exists y; (split; [exact Ey|apply C; exact Iy]). }
+  rewrite (sketch_jaccard_full n k sa sb ka kb Hn Ka Kb La) by (rewrite E; exact La).
+  rewrite E. rewrite shared_bottom_same; [|apply desc_sketch_of|exact La].
+  rewrite Z2Nat.id by lia. reflexivity.
+Qed.
+
+Lemma sketch_jaccard_sym n k sa sb :
+  sketch_jaccard_pair hs n n k sa sb = sketch_jaccard_pair hs n n k sb sa.
+Proof.
+  unfold sketch_jaccard_pair.
+  destruct (sequences_mh hs n k sa) as [a| |] eqn:Ea, (sequences_mh hs n k sb) as [b| |] eqn:Eb; cbn [obind];
+    try reflexivity.
+  - unfold jaccard_pair.
+    assert (Ka : mh_k a = n).
+    { unfold sequences_mh, mh_new in Ea. destruct (n <? 1)%Z; [discriminate|]. cbn [obind] in Ea.
+      unfold add in Ea. destruct (fold_left _ _ _); inversion Ea. reflexivity. }
+    assert (Kb : mh_k b = n).
+    { unfold sequences_mh, mh_new in Eb. destruct (n <? 1)%Z; [discriminate|]. cbn [obind] in Eb.
+      unfold add in Eb. destruct (fold_left _ _ _); inversion Eb. reflexivity. }
+    rewrite Ka, Kb. apply intersect_sym.
+  - exfalso. unfold sequences_mh, mh_new in Ea. destruct (n <? 1)%Z; [discriminate|]. cbn [obind] in Ea.
+    unfold add in Ea. destruct (fold_left _ _ _); discriminate.
+  - exfalso. unfold sequences_mh, mh_new in Eb. destruct (n <? 1)%Z; [discriminate|]. cbn [obind] in Eb.
+    unfold add in Eb. destruct (fold_left _ _ _); discriminate.
+Qed.
+
+End HashB.
